@@ -216,7 +216,8 @@ EmitTDK(leaves, top) == PrintT(ToJson([k |-> "build", fam |-> "T", nospec |-> TR
                               observe |-> Flat([i \in DOMAIN leaves |-> << <<"len", leaves[i]>>, <<"marshal", leaves[i]>> >>]) \o Obs4(top.n) \o Obs4(top.n),
                               kids |-> leaves, trees |-> [x \in {top.n} |-> [T |-> top.tree.T]]]))
 NextT == \E shape \in {"instr-then-actions", "ct-then-nat-ranges", "instr-then-ct-actions", "bucket-then-note", "pktout-then-learnspecs",
-                       "instr-actions-after-flowmod", "ct-in-bucket-then-actions"}, tag \in Tags :
+                       "instr-actions-after-flowmod", "ct-in-bucket-then-actions", "bucket-attached-then-ct-actions",
+                       "bucket-attached-then-note-grows"}, tag \in Tags :
             /\ c' = <<shape, tag>>
             /\ LET out == LeafAct("o1", "output", tag)  grp == LeafAct("g1", "group", tag)
                    fm(ops) == El("m", [T |-> "FlowMod"], ops)
@@ -245,6 +246,15 @@ NextT == \E shape \in {"instr-then-actions", "ct-then-nat-ranges", "instr-then-c
                       EmitTDK(<<"o1">>, El("m", [T |-> "GroupMod"], out.ops \o <<New("m", "NewGroupMod", <<>>), Set("m", "Xid", Xid(tag)), New("b", "NewBucket", <<>>),
                                  New("ct", "NewNXActionConnTrack", <<>>), Call("b", "AddAction", <<Ref("ct")>>), Call("ct", "AddAction", <<Ref("o1")>>),
                                  Call("m", "AddBucket", <<Ref("b")>>)>>))
+                 \* the bucket is handed to the group-mod first (AddBucket takes it by value) and an action it holds by reference grows afterwards
+                 [] shape = "bucket-attached-then-ct-actions" ->
+                      EmitTDK(<<"o1", "g1">>, El("m", [T |-> "GroupMod"], out.ops \o grp.ops \o <<New("m", "NewGroupMod", <<>>), Set("m", "Xid", Xid(tag)), New("b", "NewBucket", <<>>),
+                                 New("ct", "NewNXActionConnTrack", <<>>), Call("b", "AddAction", <<Ref("ct")>>), Call("m", "AddBucket", <<Ref("b")>>),
+                                 Call("ct", "AddAction", <<Ref("o1")>>), Call("ct", "AddAction", <<Ref("g1")>>)>>))
+                 [] shape = "bucket-attached-then-note-grows" ->
+                      EmitTDK(<<"n1">>, El("m", [T |-> "GroupMod"], <<New("m", "NewGroupMod", <<>>), Set("m", "Xid", Xid(tag)), New("b", "NewBucket", <<>>),
+                                 New("n1", "NewNXActionNote", <<>>), Call("b", "AddAction", <<Ref("n1")>>), Call("m", "AddBucket", <<Ref("b")>>),
+                                 Set("n1", "Note", V(tag, 30))>>))
                  [] shape = "pktout-then-learnspecs" ->
                       LET sp == LearnSpecEl("s1", "lv", 24, tag) IN
                       EmitTDK(<<"l">>, El("m", [T |-> "PacketOut"], sp.ops \o <<New("m", "NewPacketOut", <<>>), Set("m", "Xid", Xid(tag)), New("l", "NewNXActionLearn", <<>>),
